@@ -331,6 +331,7 @@ int run_replay(const Args &a) {
     ctx.workdir = a.workdir;
     Tape canon;
     CaseResult r = ENGINE.run(ctx, t, canon);
+    mem_mode_filter(ctx, r);
     printf("%s", r.desc.c_str());
     if (!r.desc.empty() && r.desc.back() != '\n') printf("\n");
     if (r.ok) {
@@ -357,6 +358,7 @@ int run_forked(const RunCtx &ctx, const Tape &t) {
         int code = 0;
         try {
             CaseResult r = ENGINE.run(ctx, t, canon);
+            mem_mode_filter(ctx, r);
             code = r.ok ? 0 : 1;
         } catch (const HarnessBug &) {
             code = 2;
@@ -517,6 +519,7 @@ int main(int argc, char **argv) {
             CaseResult r;
             try {
                 r = ENGINE.run(c, t, canon);
+                mem_mode_filter(c, r);
             } catch (const HarnessBug &e) {
                 harness_bug = true;
                 harness_msg = e.what();
